@@ -44,8 +44,8 @@ def _chunk(args):
                 agg[k] = agg.get(k, "") + val
             else:
                 agg[k] = agg.get(k, 0) + int(val)
-        if p.returncode == 70 and v:
-            cur = v[-1]["idx"] + 1          # deadlocked run: threads are stuck, continue in a new process
+        if p.returncode in (70, 74) and v:
+            cur = v[-1]["idx"] + 1          # deadlocked / crashed run: continue behind it in a new process
         elif p.returncode == 0:
             break
         else:
